@@ -93,7 +93,7 @@ func TestKeyEntries(t *testing.T) {
 func TestFieldsGolden(t *testing.T) {
 	for _, c := range []string{"fields_main", "fields_mut"} {
 		dir := filepath.Join("..", "testdata", c)
-		for _, g := range fgroups {
+		for _, g := range fgroups[:2] { // the cache and the work queue; publisher / rankCalculation: TestPubRank* below
 			got, _, _, err := generateGroup(dir, g)
 			if err != nil {
 				t.Fatalf("%s: %v", c, err)
@@ -322,7 +322,7 @@ func TestRefactoringsDoNotChangeTheSkeletons(t *testing.T) {
 			t.Fatal(err)
 		}
 		all = append(all, got...)
-		for _, g := range fgroups {
+		for _, g := range fgroups[:2] {
 			got, _, _, err := generateGroup(filepath.Join("..", "testdata", dir), g)
 			if err != nil {
 				t.Fatal(err)
@@ -412,4 +412,140 @@ func TestInference(t *testing.T) {
 			t.Errorf("unresolvable lock: %s is not Unknown", e.name)
 		}
 	}
+}
+
+// ---------------------------------------------------------------------------------------------
+// publisher/publication.go (C10) and rankCalculation/rankCalculator.go (X05): foreign mode (every function of the file,
+// objects recognised by type — also when they come out of generic.SyncMap of another package of the module), nested
+// lock/field paths, re-acquired locks listed twice, channel open-state
+//
+//	pub_main       the files as on main (+ go.mod, generic/syncmap.go for the module importer)
+//	pub_r1..r3     the three harmless rewrites of seeded/_refactorings/publisher-r*
+//	pub_m*         lock-discipline mutations (each must show up in the skeleton in its specific way)
+// ---------------------------------------------------------------------------------------------
+
+func pubGen(t *testing.T, dir string, gi int) string {
+	got, _, _, err := generateGroup(filepath.Join("..", "testdata", dir), fgroups[gi])
+	if err != nil {
+		t.Fatal(err)
+	}
+	if gi == 2 {
+		s := string(got)
+		s = s[strings.Index(s, "subscriber_skeleton"):]
+		return s[:strings.Index(s, "\n].")+3]
+	}
+	return string(got)
+}
+
+func TestPubRankGolden(t *testing.T) {
+	dir := filepath.Join("..", "testdata", "pub_main")
+	for _, g := range fgroups[2:] {
+		got, _, _, err := generateGroup(dir, g)
+		if err != nil {
+			t.Fatal(err)
+		}
+		wantFile := filepath.Join(dir, "expected_"+g.outFile)
+		if os.Getenv("LOCKSKEL_UPDATE") != "" {
+			os.WriteFile(wantFile, got, 0o644)
+		}
+		if want, err := os.ReadFile(wantFile); err != nil || string(want) != string(got) {
+			t.Errorf("pub_main/%s: output differs from expected (%v)\n--- got\n%s", g.outFile, err, got)
+		}
+	}
+}
+
+// flat: entry -> set of "held|access" (the structure into sections is not compared: publisher-r3 splits one read section)
+func flat(text string) map[string]map[string]bool {
+	out := map[string]map[string]bool{}
+	for _, es := range canonical(text) {
+		for _, e := range es {
+			m := map[string]bool{}
+			for s := range e.secs {
+				i := strings.Index(s, "|")
+				for _, a := range strings.Split(s[i+1:], ",") {
+					if a != "" {
+						m[s[:i]+"|"+a] = true
+					}
+				}
+			}
+			out[e.name] = m
+		}
+	}
+	return out
+}
+
+func TestPubRefactoringsDoNotChangeTheSkeleton(t *testing.T) {
+	main := flat("Definition x\n" + pubGen(t, "pub_main", 2))
+	if len(main) < 8 || len(main["Publication.Publish.go1"]) == 0 || len(main["Subscriber.Close"]) == 0 {
+		t.Fatalf("unexpected skeleton of main: %v", main)
+	}
+	for _, r := range []string{"pub_r1", "pub_r2", "pub_r3"} {
+		ref := flat("Definition x\n" + pubGen(t, r, 2))
+		for name, m := range main {
+			if r == "pub_r3" && name == "Publication.Close" {
+				continue // r3 closes the subscribers from a callback handed to SyncMap.Range: not followed (Subscriber.Close has the sections)
+			}
+			rm, ok := ref[name]
+			if !ok {
+				t.Errorf("%s: entry %s is missing", r, name)
+				continue
+			}
+			for a := range m {
+				if !rm[a] {
+					t.Errorf("%s.%s: %s missing after the rewrite", r, name, a)
+				}
+			}
+			for a := range rm {
+				if !m[a] {
+					t.Errorf("%s.%s: %s appears after the rewrite", r, name, a)
+				}
+			}
+		}
+		for name := range ref {
+			if _, ok := main[name]; !ok {
+				t.Errorf("%s: new entry %s", r, name)
+			}
+		}
+	}
+}
+
+func TestPubRankKeyEntriesAndMutations(t *testing.T) {
+	check := func(text, name, want string) {
+		t.Helper()
+		if got := entryLine(t, text, name); got != want {
+			t.Errorf("%s:\n got  %s\n want %s", name, got, want)
+		}
+	}
+	muR, muW := `("mu", Rd)`, `("mu", Wr)`
+	send := `Sec [` + muR + `] [` + rd("closed") + `; ` + rd("receiveCh") + `; ` + rd("receiveCh.open") + `; ` + rd("done") + `]`
+	shut := `Sec [] [` + rd("done") + `]; Sec [` + muW + `] [` + wrt("closed") + `; ` + rd("receiveCh") + `; ` + wrt("receiveCh.open") + `]`
+	m := pubGen(t, "pub_main", 2)
+	check(m, "Publication.Publish.go1", `("Publication.Publish.go1", [`+send+`])`)
+	check(m, "Subscriber.Close", `("Subscriber.Close", [`+shut+`])`)
+	check(m, "Publication.Close", `("Publication.Close", [`+shut+`])`)
+	check(m, "Subscriber.Receive", `("Subscriber.Receive", [Sec [] [`+rd("receiveCh")+`]])`)
+	for _, private := range []string{"send", "shutdown", "unsubscribe"} {
+		if strings.Contains(m, "."+private+`"`) || strings.Contains(m, `("`+private+`"`) {
+			t.Errorf("private method %s has an entry of its own", private)
+		}
+	}
+	// the mutations
+	check(pubGen(t, "pub_m1_read_outside", 2), "Publication.Publish.go1",
+		`("Publication.Publish.go1", [Sec [] [`+rd("closed")+`]; Sec [`+muR+`] [`+rd("receiveCh")+`; `+rd("receiveCh.open")+`; `+rd("done")+`]])`)
+	check(pubGen(t, "pub_m2_close_outside", 2), "Subscriber.Close",
+		`("Subscriber.Close", [Sec [] [`+rd("done")+`]; Sec [`+muW+`] [`+wrt("closed")+`]; Sec [] [`+rd("receiveCh")+`; `+wrt("receiveCh.open")+`]])`)
+	check(pubGen(t, "pub_m3_send_nolock", 2), "Publication.Publish.go1",
+		`("Publication.Publish.go1", [Sec [] [`+rd("closed")+`; `+rd("receiveCh")+`; `+rd("receiveCh.open")+`; `+rd("done")+`]])`)
+	check(pubGen(t, "pub_m4_recursive_rlock", 2), "Publication.Publish.go1",
+		`("Publication.Publish.go1", [Sec [`+muR+`] []; Sec [`+muR+`; `+muR+`] [`+rd("closed")+`]; Sec [`+muR+`] [`+rd("receiveCh")+`; `+rd("receiveCh.open")+`; `+rd("done")+`]])`)
+	check(pubGen(t, "pub_m5_leak_on_return", 2), "Subscriber.Close", `("Subscriber.Close", [Unknown])`)
+	check(pubGen(t, "pub_m7_write_under_rlock", 2), "Subscriber.Close",
+		`("Subscriber.Close", [Sec [] [`+rd("done")+`]; Sec [`+muR+`] [`+wrt("closed")+`]; Sec [`+muW+`] [`+rd("receiveCh")+`; `+wrt("receiveCh.open")+`]])`)
+	// rank
+	mxR, mxW := `("mux", Rd)`, `("mux", Wr)`
+	r := pubGen(t, "pub_main", 3)
+	check(r, "Accumulate", `("Accumulate", [Sec [`+mxR+`] [`+rd("entries")+`]])`)
+	check(r, "Reset", `("Reset", [Sec [`+mxW+`] [`+wrt("entries")+`]])`)
+	check(r, "Calculate", `("Calculate", [Sec [`+mxR+`] [`+rd("entries")+`]])`)
+	check(pubGen(t, "pub_m6_rank_nolock", 3), "Accumulate", `("Accumulate", [Sec [] [`+rd("entries")+`]])`)
 }
